@@ -1,4 +1,72 @@
-//! Determinism self-test (filled in below).
-pub fn run(_args: &[String]) -> i32 {
-    2
+//! Determinism self-test: the same seeds executed in different worker processes and under
+//! different partitions must produce byte-identical event logs (compared by hash).
+
+use super::WorkerSummary;
+use super::generate::Class;
+use crate::pool::{self, PoolError};
+use std::collections::BTreeMap;
+
+fn collect(class: Class, n: u64, parts: usize, tag: &str) -> Result<BTreeMap<u64, u64>, String> {
+    let mut argvs = Vec::new();
+    for (k, (from, to)) in pool::ranges(n, parts).into_iter().enumerate() {
+        argvs.push(
+            [
+                "worker", "e1", "--class", &format!("{class:?}"), "--from", &from.to_string(), "--to",
+                &to.to_string(), "--tier", "quick", "--props", "none", "--id", &format!("{tag}{k}"), "--eventlog",
+            ]
+            .iter()
+            .map(|s| (*s).to_string())
+            .collect(),
+        );
+    }
+    let res: Vec<WorkerSummary> = pool::run_workers(argvs, true).map_err(|PoolError::Harness(e)| e)?;
+    let mut m = BTreeMap::new();
+    for r in res {
+        if let Some(e) = r.harness_errors.first() {
+            return Err(e.clone());
+        }
+        for (i, h) in r.event_hashes {
+            m.insert(i, h);
+        }
+    }
+    Ok(m)
+}
+
+/// Returns the number of runs compared, or an error describing the first divergence.
+pub fn compare(class: Class, n: u64, parts_a: usize, parts_b: usize) -> Result<u64, String> {
+    let a = collect(class, n, parts_a, "da")?;
+    let b = collect(class, n, parts_b, "db")?;
+    if a.len() as u64 != n || b.len() as u64 != n {
+        return Err(format!("expected {n} event logs, got {} and {}", a.len(), b.len()));
+    }
+    for (i, h) in &a {
+        if b.get(i) != Some(h) {
+            return Err(format!("event log of run {i} of class {class:?} differs between two executions"));
+        }
+    }
+    Ok(n)
+}
+
+pub fn run(args: &[String]) -> i32 {
+    let n: u64 = args
+        .iter()
+        .position(|a| a == "--runs")
+        .and_then(|i| args.get(i + 1))
+        .and_then(|s| s.parse().ok())
+        .unwrap_or(2000);
+    let mut total = 0;
+    for class in [Class::C01, Class::C02, Class::C03, Class::C10, Class::C11, Class::Mixed] {
+        match compare(class, n, 16, 5) {
+            Ok(k) => {
+                total += k;
+                println!("determinism: class {class:?}: {k} runs x 2 executions (16 vs 5 worker processes) identical");
+            }
+            Err(e) => {
+                eprintln!("HARNESS-ERROR: nondeterminism detected: {e}");
+                return 2;
+            }
+        }
+    }
+    println!("determinism self-test passed: {total} runs compared");
+    0
 }
